@@ -240,6 +240,9 @@ func (m *StreamModel) GenBatch(tp *simcore.Tape, o BatchOpts, batchNo int) []*SR
 		} else {
 			r.Series = m.pickSeries(tp, o.MaxSeries)
 			r.Ts = o.BaseMs - int64(tp.Choose(int(o.SpanMs)+1))
+			if len(o.FixedTimes) > 0 && tp.Side().Bool(1, 4) { // e.g. exactly on a segment boundary
+				r.Ts = o.FixedTimes[tp.Side().Choose(len(o.FixedTimes))]
+			}
 		}
 		m.nextW++
 		r.Wid = m.nextW
